@@ -67,9 +67,6 @@ def pint_factor(units):
 
 # --------------------------------------------------------------------------- world
 
-SINGLE_MODEL = ()          # IDs whose V is one phase-independent model (locked-state chemicals); set per configuration
-
-
 def _Vfn(w, ID, phase, single=False):
     return w.fn(f'V.{ID}' if single else f'V.{ID}.{phase.lower()}', positive=True)
 
@@ -508,7 +505,6 @@ def write_read(w, cfg):
     key = (ph, 'Water') if multi else 'Water'      # 'diag': (first phase, Water) is stored; in 'gl' (l, Water) is a new entry
     if 'new' in op:
         key = (ph, 'Ethanol') if multi else 'Ethanol'
-        if not multi: pass
     kpos = IDs.index(key[1] if multi else key)
     observe(w, s, 'before', units=())               # fills every cache
     pre = W.snapshot(s); T, P = s.T, s.P
@@ -528,7 +524,7 @@ def write_read(w, cfg):
         new = observe_raw(s)
         return w.And(*[w.eq(new[k], old[k]) for k in old if k not in keys])
 
-    def composition_kept(Fnew):
+    def composition_kept():
         new = observe_raw(s)
         # n_new / F_new = n_old / F_old, cross-multiplied
         return w.And(*[w.eq(new[k] * Fmol, old[k] * w.total(new.values())) for k in old])
@@ -550,7 +546,7 @@ def write_read(w, cfg):
         u2 = SAME_DIM[u]; f2 = pint_factor(u2)[1]
         w.ensure('total read back in the same unit returns the written value', w.eq(s.get_total_flow(u), x))
         w.ensure('total read back in another unit returns value*factor', w.eq(s.get_total_flow(u2) * f, x * f2))
-        w.ensure('composition unchanged when a total is set', composition_kept(None))
+        w.ensure('composition unchanged when a total is set', composition_kept())
         w.ensure('T, P unchanged', w.And(w.eq(s.T, T), w.eq(s.P, P)))
         w.canary('canary: F_mol = x', w.eq(s.F_mol, x + Fmass + Fvol))
     elif op in ('imol[k]=', 'imass[k]=', 'ivol[k]=', 'imass[k]=new', 'ivol[k]=new', 'imass[k]=0'):
@@ -577,7 +573,7 @@ def write_read(w, cfg):
         setattr(s, name, val)
         w.ensure('total read back returns the written value', w.eq(getattr(s, name), val))
         if val is x:
-            w.ensure('composition unchanged when a total is set', composition_kept(None))
+            w.ensure('composition unchanged when a total is set', composition_kept())
         else:
             w.ensure('a zero total empties the stream', w.And(*[w.eq(v, 0.) for v in observe_raw(s).values()]))
         w.ensure('T, P unchanged', w.And(w.eq(s.T, T), w.eq(s.P, P)))
@@ -660,9 +656,9 @@ def observe_raw(s):
 
 # --------------------------------------------------------------------------- group 5: histories (the point of the property)
 
-OPS_SINGLE = ['wmol', 'wmass', 'wvol', 'T', 'P', 'phase', 'phases', 'link', 'unlink', 'copy_like', 'reset']
-OPS_MULTI = ['wmol', 'wmass', 'wvol', 'wsub', 'T', 'P', 'phase', 'phases', 'expand', 'link', 'unlink', 'copy_like', 'reset']
-OPS_EXTRA = ['Tback', 'copy_likeB', 'copy_like_multi', 'F_mass', 'scale_vol']      # thorough only
+OPS_SINGLE = ['wmol', 'wmass', 'wvol', 'T', 'P', 'phase', 'phases', 'link', 'link_flow', 'unlink', 'copy_like', 'reset']
+OPS_MULTI = ['wmol', 'wmass', 'wvol', 'wsub', 'T', 'P', 'phase', 'phases', 'expand', 'link', 'link_flow', 'unlink', 'copy_like', 'reset']
+OPS_EXTRA = ['Tback', 'copy_likeB', 'copy_like_multi', 'F_mass', 'scale_vol', 'link_TP', 'link_phase']      # thorough only
 
 
 def hist_configs(tier):
@@ -676,12 +672,14 @@ def hist_configs(tier):
                 for seq in itertools.product(ops, repeat=n):
                     add(start, seq, 'all')
             for seq in itertools.product(ops, repeat=2):
-                if seq[0] in ('link', 'phases', 'copy_like', 'reset', 'expand', 'unlink'):
+                if seq[0] in ('link', 'link_flow', 'phases', 'copy_like', 'reset', 'expand', 'unlink'):
                     add(start, seq, 'end')
             # selected longer histories: cache filled, structure changed, written through a view, conditions changed
             for seq in [('wvol', 'T', 'wvol'), ('link', 'wmass', 'unlink'), ('link', 'unlink', 'wvol'), ('phases', 'wvol', 'phase'),
                         ('reset', 'wmass', 'reset'), ('T', 'P', 'wvol'), ('copy_like', 'T', 'wvol'), ('link', 'T', 'wvol'),
-                        ('phases', 'link', 'wmass'), ('reset', 'link', 'wvol'), ('unlink', 'reset', 'wvol')]:
+                        ('phases', 'link', 'wmass'), ('reset', 'link', 'wvol'), ('unlink', 'reset', 'wvol'),
+                        ('link_flow', 'wmass', 'unlink'), ('link_TP', 'T', 'wvol'), ('link_phase', 'phase', 'wvol'), ('link_TP', 'wvol'),
+                        ('link_phase', 'wvol'), ('wvol', 'link_TP'), ('wmass', 'link_phase')]:
                 add(start, seq, 'all')
         else:
             for n in (1, 2, 3):
@@ -746,7 +744,7 @@ def histories(w, cfg):
             Ts.append(o.T); Ps.append(o.P)
         return others[name]
     for op in ops:   # all leaves of a path are created up-front, deterministically
-        if op == 'link': other('o')
+        if op.startswith('link'): other('o')
         elif op == 'copy_like': other('og')
         elif op == 'copy_likeB': other('ogB')
         elif op == 'copy_like_multi': other('ols')
@@ -794,9 +792,13 @@ def histories(w, cfg):
             v = w.real(f'{op}{n}', lo=0, lo_strict=True)
             lst = Ts if op == 'T' else Ps
             lst.append(v); distinct_from(w, v, lst[:-1])
+            pre = W.snapshot(s)
             setattr(s, op, v)
+            w.ensure(f'{tag}: molar data unchanged by a change of {op}', W.same_snapshot(w, pre, W.snapshot(s)))
         elif op == 'Tback':
+            pre = W.snapshot(s)
             s.T = T0
+            w.ensure(f'{tag}: molar data unchanged by a change of T', W.same_snapshot(w, pre, W.snapshot(s)))
         elif op == 'phase':
             if multi: s.phase = 'l'
             else: s.phase = 'g' if s.phase != 'g' else 'l'
@@ -809,19 +811,29 @@ def histories(w, cfg):
                 s.mix_from([s, other('os')], energy_balance=False)
             else:
                 s.copy_like(other('os'))
-        elif op == 'link':
+        elif op.startswith('link'):
             o = other('o')
             if o._thermo is not s._thermo:         # requires of link_with: both streams use the same property package
                 o._reset_thermo(s._thermo)         # (flow data are shared positionally)
-            r = attempt(lambda: s.link_with(o))
+            what = {'link': dict(), 'link_flow': dict(flow=True, phase=False, TP=False), 'link_TP': dict(flow=False, phase=False, TP=True),
+                    'link_phase': dict(flow=False, phase=True, TP=False)}[op]
+            r = attempt(lambda: s.link_with(o, **what))
             same_class = isinstance(o._imol, type(s._imol))
             if same_class:
                 w.ensure(f'{tag}: link succeeds for streams of the same class', not isinstance(r, Raised), got=repr(r))
+                if what.get('flow', True):
+                    w.ensure(f'{tag}: linked flow data are the data of the other stream', W.same_snapshot(w, W.snapshot(o), W.snapshot(s))
+                             if type(s) is type(o) and s.phases == o.phases else True)
                 if ('o', o) not in live: live.append(('o', o))
             else:
                 w.ensure(f'{tag}: link of different classes is rejected', isinstance(r, Raised) and isinstance(r.e, RuntimeError), got=repr(r))
         elif op == 'unlink':
+            pre = W.snapshot(s); T_, P_ = s.T, s.P
+            pre_others = [(x_, W.snapshot(x_)) for _, x_ in live[1:]]
             s.unlink()
+            w.ensure(f'{tag}: molar data, T, P unchanged by unlink (this stream and its former partners)',
+                     w.And(W.same_snapshot(w, pre, W.snapshot(s)), w.eq(s.T, T_), w.eq(s.P, P_),
+                           *[W.same_snapshot(w, p_, W.snapshot(x_)) for x_, p_ in pre_others]))
         elif op == 'copy_like':
             s.copy_like(other('og'))
         elif op == 'copy_likeB':
